@@ -386,7 +386,7 @@ def run_generated(spec, rec, rng, pint):
                     else:
                         val = F(Decimal(gf[1:])) if gf.startswith("D") else F(float(gf)) if "." in gf or "e" in gf or "n" in gf else F(gf)
                         tol = F(1, 10 ** 20) if nitname == "decimal" else F(1, 10 ** 11)
-                        lo, hi = F(1, 10 ** 150), F(10 ** 150)
+                        lo, hi = F(1, 10 ** 80), F(10 ** 80)   # beyond this float partial products go subnormal
                         if lo < abs(t["factor"]) < hi and abs(val - t["factor"]) > abs(t["factor"]) * tol:
                             rec.violation("truth-factor", {"text": base_text, "unit": c, "got": gf,
                                                            "want": str(t["factor"]), "nit": nitname},
